@@ -9,5 +9,5 @@ CONSTANTS
   Times <- T_Times
   MaxCands = 2
   MaxDateC = 2
-  MaxTimeC = 2
+  MaxTimeC = 1
 CHECK_DEADLOCK FALSE
